@@ -468,6 +468,8 @@ class Builder:
                 return []
             n = {"boundary": rng.choice([1, 15, 16, 17]), "extreme": 65536 if self.thorough else 3000}.get(vc, rng.randint(1, 4))
             ecls = [c for c in classes_for(base) if c not in ("none", "extreme")] or ["random"]
+            if vc == "extreme":
+                ecls = ["random"]  # many elements: keep each one small
             return [self.value(base, rng.choice(ecls), depth + 1) for _ in range(n)]
         if ftype == "record":
             if vc == "none":
